@@ -83,6 +83,11 @@ add("C16", "fault_enumeration",
     "Trusted: the ideal tree model; the hook fires at the adapter boundary (SledDB::put/put_batch/close), so error mapping inside those three functions below the hook and failures inside sled are not exercised; crash = process abort (not power loss). After a failed request only leaves, leaf count and metadata are constrained, not the root.",
     "stateful model-based property testing with storage fault injection at every position and process-abort crash points", "DESIGN.md#c16")
 
+add("C11", "exploration",
+    "Lockstep differential testing of the two API surfaces: one generated call history (whole extern \"C\" surface, valid and malformed buffers, boundary indices, constructors, sequential and indexed batches, proofs at depth 20) is executed on instance A only through rln::ffi (called in-process with real Buffer structs / raw pointers) and on instance B only through rln::public::RLN; per call flag == is_ok, output bytes equal (randomised outputs: same length and public values, cross-verified), failed calls leave out-parameters and state untouched; after every call root, leaf count, probed leaves, metadata and a membership proof read through the FFI equal those read through the Rust API.",
+    "Trusted: nothing beyond the Rust API itself (it is the reference for this property). Inputs on which the Rust API panics are outside the quantifier: the history ends there and the class is counted. A panic inside an extern \"C\" function aborts the process; a SIGABRT handler reports it as a violation with the unshrunk in-flight case.",
+    "stateful differential (lockstep) property testing of two API surfaces", "DESIGN.md#c11")
+
 ALL = [f"C{i:02d}" for i in range(1, 21)]
 PENDING_REASON = "check not built yet in this revision of /verif (planned, see DESIGN.md section 2); not claimed until its machinery exists"
 manifest = {
